@@ -270,12 +270,15 @@ pub fn make_header(cfg: &PicCfg, ptype: u8, rng: &mut Rng) -> Hdr {
             let fmt = STD_FIXED.iter().find(|f| f.1 == cfg.w && f.2 == cfg.h).expect("fixed format size").0;
             let mut h = StdHeader::baseline(cfg.tr, fmt, ptype != 0, cfg.quant);
             h.pei = pei;
+            // continuous-presence multipoint: a sub-bitstream number that may change from picture to picture
+            h.cpm = if rng.chance(1, 4) { Some(rng.below(4) as u8) } else { None };
             Hdr::Std(h)
         }
         Flavour::StdPlus => {
             assert!(cfg.w % 4 == 0 && cfg.h % 4 == 0 && cfg.w >= 4 && cfg.h >= 4);
             let mut h = StdHeader::baseline(cfg.tr, 7, ptype != 0, cfg.quant);
             h.pei = pei;
+            h.cpm = if rng.chance(1, 4) { Some(rng.below(4) as u8) } else { None };
             h.plus = Some(PlusHeader {
                 ufep: 1,
                 src_fmt: 6,
